@@ -1,5 +1,6 @@
 INIT Init
 NEXT Next
 CONSTANT MaxRem = 48
+CONSTANT FieldMax = 65535
 CONSTANT LOff = {}
 INVARIANT IndInv
